@@ -9,6 +9,8 @@ import (
 	"errors"
 	"fmt"
 	"io"
+	"net"
+	"os"
 	"sync"
 	"sync/atomic"
 	"time"
@@ -42,6 +44,8 @@ func (sc *scenario) runZeroRTT() (out *outcome) {
 	sc.rec = &recorder{}
 	sc.seen = map[int]map[string]bool{}
 	sc.buffered = map[int][]partSum{}
+	sc.c2sTaken = map[int]bool{}
+	sc.sentPend = map[int][]string{}
 	sc.done = make(chan struct{})
 	sc.resetCh = make(chan struct{})
 	sim := &simnet.Simnet{Router: sc.nw}
@@ -68,6 +72,11 @@ func (sc *scenario) runZeroRTT() (out *outcome) {
 		return c, nil
 	}
 	str := &quic.Transport{Conn: spc}
+	if sc.spec.retry {
+		// every dial is answered with a Retry first: dial 2's early data is in flight when it arrives and has to be
+		// sent again (once) with the token
+		str.VerifySourceAddress = func(net.Addr) bool { return true }
+	}
 	ln, err := str.ListenEarly(serverTLS(sc.spec.chain), sconf)
 	if err != nil {
 		out.dial = "E:setup"
@@ -77,6 +86,56 @@ func (sc *scenario) runZeroRTT() (out *outcome) {
 	cconf := &quic.Config{Tracer: func(context.Context, bool, quic.ConnectionID) qlogwriter.Trace { return qtrace{sc.rec} }}
 	ctls := clientTLS(start)
 	ctls.ClientSessionCache = tls.NewLRUClientSessionCache(4)
+	// client kind: the plain client, or a spec-driven one (UTransport with the Chrome parrot). The presets carry no
+	// pre_shared_key extension, so a parrot never resumes on its own; the scenario appends one (uTLS fills it from the
+	// session cache; it has to be the last extension), optionally preceded by an empty early_data extension - what a
+	// spec author who wants resumption / 0-RTT writes.
+	var utr, utrEarly *quic.UTransport
+	if sc.spec.client == "chrome" {
+		mkSpec := func(earlyData bool) *quic.QUICSpec {
+			spec, err := quic.QUICID2Spec(quic.QUICChrome_115_IPv4)
+			if err != nil {
+				return nil
+			}
+			switch {
+			case sc.spec.psk == "psked" && earlyData:
+				// (an early_data extension is only legal next to a pre_shared_key: the spec of the resuming dial)
+				spec.ClientHelloSpec.Extensions = append(spec.ClientHelloSpec.Extensions, &tls.GenericExtension{Id: 42}, &tls.UtlsPreSharedKeyExtension{})
+			case sc.spec.psk == "psk" || sc.spec.psk == "strict" || sc.spec.psk == "psked":
+				spec.ClientHelloSpec.Extensions = append(spec.ClientHelloSpec.Extensions, &tls.UtlsPreSharedKeyExtension{})
+			}
+			return &spec
+		}
+		s1, s2 := mkSpec(false), mkSpec(true)
+		if s1 == nil || s2 == nil {
+			out.dial = "E:setup"
+			return
+		}
+		utr = &quic.UTransport{Transport: sc.ctr, QUICSpec: s1}
+		utrEarly = &quic.UTransport{Transport: sc.ctr, QUICSpec: s2}
+		spec := *s2
+		// without a session (dial 1) the extension has nothing to carry: uTLS leaves it out when told so, and otherwise
+		// refuses to build the ClientHello (psk=strict)
+		ctls.OmitEmptyPsk = sc.spec.psk != "strict"
+		if os.Getenv("GATE_DEBUG") != "" {
+			uc := tls.UClient(nil, ctls.Clone(), tls.HelloCustom)
+			err := uc.ApplyPreset(spec.ClientHelloSpec)
+			fmt.Fprintf(os.Stderr, "debug: ApplyPreset: %v\n", err)
+			err = uc.BuildHandshakeState()
+			fmt.Fprintf(os.Stderr, "debug: BuildHandshakeState: %v\n", err)
+		}
+	}
+	dialWith := func(ctx context.Context, early bool) (*quic.Conn, error) {
+		switch {
+		case utr != nil && early:
+			return utrEarly.DialEarly(ctx, serverAddr, ctls.Clone(), cconf)
+		case utr != nil:
+			return utr.Dial(ctx, serverAddr, ctls.Clone(), cconf)
+		case early:
+			return sc.ctr.DialEarly(ctx, serverAddr, ctls.Clone(), cconf)
+		}
+		return sc.ctr.Dial(ctx, serverAddr, ctls.Clone(), cconf)
+	}
 
 	var mu sync.Mutex
 	var streams []srvStream
@@ -109,16 +168,15 @@ func (sc *scenario) runZeroRTT() (out *outcome) {
 			}()
 		}
 	}()
-	sc.nw.onC2S = func(idx int) {
-		if idx == 0 {
-			sc.nw.schedule(&pend{trig: true}, 0)
-		}
-	}
+	sc.nw.onC2S = sc.onClientDatagram
 	stopped := make(chan struct{})
 	go sc.deliverLoop(stopped)
+	clientStuck := false // a Dial that never returned holds a connection whose run loop never ends: Transport.Close would wait for it
 	cleanup := func() {
 		ln.Close()
-		sc.ctr.Close()
+		if !clientStuck {
+			sc.ctr.Close()
+		}
 		str.Close()
 		cpc.Close()
 		spc.Close()
@@ -147,11 +205,52 @@ func (sc *scenario) runZeroRTT() (out *outcome) {
 	}
 
 	// ---- dial 1: full handshake, obtain a session ticket
-	ctx1, cancel1 := context.WithTimeout(context.Background(), 30*time.Second)
-	c1, err := sc.ctr.Dial(ctx1, serverAddr, ctls.Clone(), cconf)
+	// (bounded like every dial: the handshake timeout, and it must at least return once its context is cancelled)
+	type dialRes struct {
+		c   *quic.Conn
+		err error
+	}
+	out.bound = 2*protocol.DefaultHandshakeIdleTimeout + time.Second
+	ctx1, cancel1 := context.WithCancel(context.Background())
+	ch1 := make(chan dialRes, 1)
+	t1 := time.Now()
+	go func() {
+		c, err := dialWith(ctx1, false)
+		ch1 <- dialRes{c, err}
+	}()
+	var r1 dialRes
+	tm1 := time.NewTimer(out.bound)
+	select {
+	case r1 = <-ch1:
+	case <-tm1.C:
+		out.hang = true
+		cancel1()
+		tm1b := time.NewTimer(5 * time.Second)
+		select {
+		case r1 = <-ch1:
+		case <-tm1b.C:
+			// Dial does not even return after its context was cancelled: abandoned (its goroutine stays behind)
+			out.leaked, clientStuck = true, true
+			r1.err = errors.New("dial never returned")
+		}
+		tm1b.Stop()
+	}
+	tm1.Stop()
 	cancel1()
+	c1, err := r1.c, r1.err
 	if err != nil {
-		out.dial = "E:first:" + errClass(err)
+		out.dial, out.t = "E:first:"+errClass(err), time.Since(t1)
+		out.ztxt = "first=1"
+		// psk=strict: uTLS refuses to build the ClientHello and its UQUICConn.Start never returns; a client that bounds
+		// that wait still leaves the goroutine calling Start behind (nothing can release it): tolerated at bubble exit
+		out.startLeak = sc.spec.psk == "strict" && !clientStuck
+		time.Sleep(time.Microsecond)
+		if !clientStuck {
+			for i := 0; i < 40 && (liveCount(sc.ctr) > 0 || liveCount(str) > 0); i++ {
+				time.Sleep(500 * time.Millisecond)
+			}
+			out.cleft, out.sleft = liveCount(sc.ctr), liveCount(str)
+		}
 		cleanup()
 		return
 	}
@@ -182,14 +281,10 @@ func (sc *scenario) runZeroRTT() (out *outcome) {
 	out.bound = hsTimeout + time.Second
 	ctx2, cancel2 := context.WithCancel(context.Background())
 	defer cancel2()
-	type dialRes struct {
-		c   *quic.Conn
-		err error
-	}
 	ch := make(chan dialRes, 1)
 	t0 := time.Now()
 	go func() {
-		c, err := sc.ctr.DialEarly(ctx2, serverAddr, ctls.Clone(), cconf)
+		c, err := dialWith(ctx2, true)
 		ch <- dialRes{c, err}
 	}()
 	var r dialRes
